@@ -27,6 +27,7 @@ type reseq struct {
 	buf     types.Object // the map
 	drain   *ast.ForStmt
 	index   int
+	then    []ast.Stmt // then-branch with calls of parameterless local closures inlined
 }
 
 func (r *reseq) key() string { return fmt.Sprintf("%s:reseq#%d", funcName(r.pkg, r.fd), r.index) }
@@ -50,6 +51,7 @@ func findResequencers(c *Ctx) []*reseq {
 	var out []*reseq
 	c.EachFunc(nil, func(p *packages.Package, fd *ast.FuncDecl) {
 		info := p.TypesInfo
+		defs := collectDefs(info, fd)
 		n := 0
 		ast.Inspect(fd.Body, func(nd ast.Node) bool {
 			ifs, ok := nd.(*ast.IfStmt)
@@ -92,10 +94,11 @@ func findResequencers(c *Ctx) []*reseq {
 			if buf == nil {
 				return true
 			}
-			// the counter must be incremented in the then-branch
+			// the counter must be incremented in the then-branch (calls of parameterless local closures inlined)
 			hasInc := false
 			var drain *ast.ForStmt
-			for _, st := range ifs.Body.List {
+			then := inlineLocalCalls(info, defs, ifs.Body.List)
+			for _, st := range then {
 				if inc, ok := st.(*ast.IncDecStmt); ok {
 					if id, ok := inc.X.(*ast.Ident); ok && info.ObjectOf(id) == next {
 						hasInc = true
@@ -109,7 +112,7 @@ func findResequencers(c *Ctx) []*reseq {
 				return true
 			}
 			n++
-			r := &reseq{pkg: p, fd: fd, ifs: ifs, next: next, item: item, buf: buf, drain: drain, index: n}
+			r := &reseq{pkg: p, fd: fd, ifs: ifs, next: next, item: item, buf: buf, drain: drain, index: n, then: then}
 			r.itemObj = rootObj(info, item)
 			out = append(out, r)
 			return true
@@ -346,7 +349,7 @@ func runW1(c *Ctx, s *Sink) {
 		var drained types.Object
 		phase := 0
 		bad := ""
-		for _, st := range r.ifs.Body.List {
+		for _, st := range r.then {
 			switch {
 			case isNextInc(st):
 				incs++
@@ -521,4 +524,25 @@ func runW1(c *Ctx, s *Sink) {
 		}
 		s.Fail(props, key, r.drain.Pos(), "the drain loop does not perform the same emission as the in-order branch: an item that arrives early is written differently (separator, error check or sink) from one that arrives in order", diff...)
 	}
+}
+
+// inlineLocalCalls replaces, in a statement list, every statement `f()` where f is a local variable
+// defined once by a parameterless, resultless function literal by the statements of that literal
+// (one level): extracting a block into a local closure must not change what the rules see.
+func inlineLocalCalls(info *types.Info, defs map[types.Object][]ast.Expr, list []ast.Stmt) []ast.Stmt {
+	var out []ast.Stmt
+	for _, st := range list {
+		if es, ok := st.(*ast.ExprStmt); ok {
+			if call, ok := es.X.(*ast.CallExpr); ok && len(call.Args) == 0 {
+				if _, isIdent := ast.Unparen(call.Fun).(*ast.Ident); isIdent {
+					if lit := localClosure(info, defs, call.Fun); lit != nil && lit.Type.Params.NumFields() == 0 && lit.Type.Results.NumFields() == 0 {
+						out = append(out, lit.Body.List...)
+						continue
+					}
+				}
+			}
+		}
+		out = append(out, st)
+	}
+	return out
 }
